@@ -36,6 +36,9 @@ var c15Templates = []string{
 	// custom regexes on variables that carry the name of a global variable
 	`/ar/{num:\d+}`,
 	`/tg/{all:[a-z]+}/feed`,
+	// more literal dots than the shortest values have bytes
+	"/v1.0/f.x/{name}.json",
+	"/d.o.t.s/{a}/{b}",
 }
 
 var c15Values = []string{"7", "20", "ab", "a b", "é", "100%", "a?b", "a#b", "a;b", "a%2Fb", ".", "..", "a/b", "x.json", "0", "a+b", "a&b=c", " ", "%41"}
@@ -401,7 +404,7 @@ func c15Run(c c15Case, st *fw.Stats) []fw.Viol {
 var c15Spec = fw.Spec[c15Case]{
 	ID:    "C15",
 	Level: "model_checking",
-	Rule: "complete product: 17 named templates (static, leading variable next to dynamic decoys whose literal first segment is one of the values, default / custom / global variable regexes, 1-3 variables, literal prefix and suffix around a variable, '.' in the literal text) x ALL value tuples over 19 values (spaces, non-ASCII, %, ?, #, ;, encoded slash, dots, slash where the regex admits it) that satisfy the variables' regexes x 4 argument styles (M map, key/value pairs, BuildRequestURL builder, one builder object reused across routes) x 6 registrations (on a caching router with two cache slots, every URL built and requested in two passes; on a caching router that answered 'no route' for every URL before the route existed; top-level AddNamed; NewNamedRoute + ToURL() + AddRoute inside a group; named after registration with NamedTo; after a POST route with the same skeleton and variable names but other variable regexes) x 4 sets of extra query arguments; " +
+	Rule: "complete product: 19 named templates (static, leading variable next to dynamic decoys whose literal first segment is one of the values, default / custom / global variable regexes, 1-3 variables, literal prefix and suffix around a variable, '.' in the literal text - also more dots than the shortest values have bytes) x ALL value tuples over 19 values (spaces, non-ASCII, %, ?, #, ;, encoded slash, dots, slash where the regex admits it) that satisfy the variables' regexes x 4 argument styles (M map, key/value pairs, BuildRequestURL builder, one builder object reused across routes) x 6 registrations (on a caching router with two cache slots, every URL built and requested in two passes; on a caching router that answered 'no route' for every URL before the route existed; top-level AddNamed; NewNamedRoute + ToURL() + AddRoute inside a group; named after registration with NamedTo; after a POST route with the same skeleton and variable names but other variable regexes) x 4 sets of extra query arguments; " +
 		"each built URL is matched (Match on u.Path) and requested (ServeHTTP on a request parsed from u.String()); naming: all sequences of <=3 (thorough 4) naming operations over 2 names x {AddNamed, NewNamedRoute+AddRoute, route.NamedTo on a new route, NamedTo renaming the first / the previous route}; non-trivial = a template with variables / a sequence of >=2 naming operations",
 	Assume: []string{"values containing '{' or '}' are excluded: Build substitutes in Go map order, which the harness cannot own", "routes without optional parts, as the statement says", "value tuples that spell a path which is not in normal form (white space or '/' at the very end) are skipped: path normalisation (C11) ignores those characters by design"},
 	Bounds: func(tier string) map[string]any {
